@@ -524,6 +524,25 @@ func ruleSegPre(c *Ctx) {
 		"scan is dominated by len(sa) ≥ 1", "scan of an empty suffix array is possible: len(sa) ≥ 1 is not established before the scan, which slices sa[0:1] (facts: "+factStrings(fi.factsAt(at))+")")
 	c.check(fi.proveLE(lsa.sub(llcp), at, nil) && fi.proveLE(llcp.sub(lsa), at, nil), "suffix.Segments:pre:len(sa)=len(lcp)", pos,
 		"scan is dominated by len(sa) = len(lcp)", "scan is not dominated by len(sa) = len(lcp)")
+	// the argument checks stop nothing that C10 allows: at every panic of Segments the branch conditions contradict
+	// 0 ≤ minLen ≤ maxLen ≤ MaxInt32 ∧ len(sa) = len(lcp) ("for every text and 0 ≤ minLen ≤ maxLen … nothing panics")
+	np := 0
+	for _, b := range seg.Blocks {
+		pn, isP := b.Instrs[len(b.Instrs)-1].(*ssa.Panic)
+		if !isP {
+			continue
+		}
+		np++
+		valid := []Fact{{mn.scale(-1), LE}, {mn.sub(mx), LE}, {mx.addc(-(1<<31 - 1)), LE}, {lsa.sub(llcp), EQ}}
+		okP := true
+		for _, w := range fi.flagWays(b) {
+			if !fi.refute(w, valid, 0) {
+				okP = false
+			}
+		}
+		c.check(okP, fmt.Sprintf("suffix.Segments:accepts#%d", np), pn.Pos(), "this argument check fails only for arguments C10 excludes",
+			"Segments can panic for arguments with 0 ≤ minLen ≤ maxLen ≤ MaxInt32 and len(sa) = len(lcp): a range test that is one step too narrow (0 < minLen) turns the legal minLen = 0 into a panic")
+	}
 	// early returns
 	n := 0
 	for _, b := range seg.Blocks {
